@@ -48,9 +48,12 @@ type caseDesc struct {
 	Specific map[int]int64 `json:"specific,omitempty"`
 	Cap      int64         `json:"cap,omitempty"`
 	NVals    int           `json:"nvals"`
-	Arr      []arrival     `json:"arrivals"`
-	FailAt   int           `json:"fail_at,omitempty"`
-	Note     string        `json:"note,omitempty"`
+	// PreLoad: the rule is installed by a reload: first a rule with another threshold and a parameter capacity of 2
+	// is loaded (no traffic), then the real one - which must get caches of its own capacity
+	PreLoad bool      `json:"installed_by_reload,omitempty"`
+	Arr     []arrival `json:"arrivals"`
+	FailAt  int       `json:"fail_at,omitempty"`
+	Note    string    `json:"note,omitempty"`
 }
 
 var run *vk.Run
@@ -85,6 +88,7 @@ func genCase(rng *rand.Rand) *caseDesc {
 	if rng.Intn(4) == 0 {
 		c.Cap = int64(1 + rng.Intn(c.NVals+3)) // may be below the number of live values
 	}
+	c.PreLoad = rng.Intn(4) == 0 && c.Cap != 2
 	n := 30 + rng.Intn(120)
 	D := uint64(c.Dur) * 1000
 	for i := 0; i < n; i++ {
@@ -205,6 +209,15 @@ func (c *caseDesc) rule(res string) *hotspot.Rule {
 func play(c *caseDesc, t0 uint64, keep func(a arrival) bool, fail func(i int, clause, msg string)) ([]decision, bool) {
 	caseNo++
 	res := fmt.Sprintf("c05-%d", caseNo)
+	if c.PreLoad {
+		pre := c.rule(res)
+		pre.Threshold += 5
+		pre.ParamsMaxCapacity = 2
+		if _, err := hotspot.LoadRulesOfResource(res, []*hotspot.Rule{pre}); err != nil {
+			fail(0, "load-error", err.Error())
+			return nil, false
+		}
+	}
 	if _, err := hotspot.LoadRulesOfResource(res, []*hotspot.Rule{c.rule(res)}); err != nil {
 		fail(0, "load-error", err.Error())
 		return nil, false
